@@ -184,6 +184,8 @@ def run_coord(W, cfg):
         vals = W.zeros(shp)
         for (r, c) in sup:
             vals[r, c] = W.real(f'mk_{r}_{c}', nz=True)
+    if cfg.get('weights') == 'concrete' and len(sup) >= 2:
+        vals = rnp.asfortranarray(vals) if (cfg['bits'] % 2) else rnp.ascontiguousarray(vals.T).T       # column-major storage / a transposed view: same mask
     # another mask of the same shape is evaluated first (same process): nothing of it may be remembered
     other = rnp.ones(shp)
     if other.size > 2:
